@@ -5,7 +5,7 @@ evaluates the same functions on the *implementation's* observed states (oracle).
 Import-free (model files only).
 -/
 import KrillModel.Ca.CertAuth
-namespace KM.Ca
+namespace KM.CaK
 open KM.Res KM.AMap
 
 /-- Key state of the aggregate and key state of the published-object sets agree:
@@ -87,4 +87,4 @@ def Sys.objectsMirror (s : Sys) : Bool :=
     | none => true
     | some ok => sameNames (keys ok.currentSet.published) p.2.publishedNames
 
-end KM.Ca
+end KM.CaK
